@@ -1,6 +1,7 @@
 """C06 - OSC encoding round-trips, conforms to OSC 1.0 and is sized correctly."""
 
 import ast
+import re
 
 from ..loader import norm, full, walk_local, walk_local_ordered, AnalysisError
 from .. import util as U
@@ -486,7 +487,39 @@ def rule_send(ctx):
     ctx.ob('C06.send', f'{f.fq}', ok, 'size test and send must use the same message; oversize goes through /d_load', f.node, f.module)
 
 
+def rule_refuse(ctx):
+    ctx.rule('C06.refuse', 'what the wire format cannot carry is refused by the writer: a string with a null byte (the reader stops at the '
+                           'first null), an address the reader does not recognise as a message (the writer accepts exactly what '
+                           'dgram_is_message recognises)')
+    m = ctx.repo.module('sc3.base._osclib')
+    ws = m.functions['write_string']
+    src = full(ws.node)
+    ok = U.before(src, "dgram = val.encode('utf-8')", "if b'\\x00' in dgram: raise OscTypeBuildError(", 'diff = _STRING_DGRAM_PAD - ')
+    ctx.ob('C06.refuse', f'{ws.fq}:null-byte', ok, 'get_string ends a string at its first null byte, so write_string must refuse one inside '
+                                                   'the value (it would be truncated and shift every later argument)', ws.node, m)
+    gs = m.functions['get_string']
+    ctx.ob('C06.refuse', f'{gs.fq}:terminator', 'while dgram[start_index + offset] != 0: offset += 1' in full(gs.node),
+           'the reader scans to the first null byte', gs.node, m)
+    rec = m.functions['OscMessage.dgram_is_message']
+    mm = re.search(r"return dgram\.startswith\(b'(.+?)'\)", full(rec.node))
+    b = m.functions['OscMessageBuilder.build']
+    src = full(b.node)
+    ok = False
+    if mm is not None:
+        body = U.body_nodoc(b.node)
+        for i, st in enumerate(body):
+            if isinstance(st, ast.If) and f"not self._address.startswith('{mm.group(1)}')" in norm(st.test) and isinstance(st.body[0], ast.Raise):
+                rest = ' '.join(norm(x) for x in body[i + 1:])
+                ok = 'write_string(self._address)' in rest and not any('write_string(self._address)' in norm(x) for x in body[:i])
+    ctx.ob('C06.refuse', f'{b.fq}:address-marker', ok,
+           f'the reader recognises a message by its leading {mm.group(1) if mm else "?"!r}; the writer must refuse any other address '
+           f'(inside a bundle such an element is dropped, and "#bundle" reads back as a bundle)', b.node, m)
+    bp = m.functions['OscBundle.dgram_is_bundle']
+    ctx.ob('C06.refuse', f'{bp.fq}', 'return dgram.startswith(_BUNDLE_PREFIX_DGRAM)' in full(bp.node), 'bundles are recognised by the #bundle prefix', bp.node, m)
+
+
 def run(ctx):
+    rule_refuse(ctx)
     rule_codec(ctx)
     rule_pad(ctx)
     rule_coerce(ctx)
@@ -497,6 +530,10 @@ def run(ctx):
 
 
 MUTANTS = [
+    dict(rule='C06.refuse', name='(fix reverted) null bytes inside strings are written', file='sc3/base/_osclib.py',
+         old="    if b'\\x00' in dgram:\n        raise OscTypeBuildError('OSC strings cannot contain null characters')\n", new=""),
+    dict(rule='C06.refuse', name='(fix reverted) any non-empty address is accepted', file='sc3/base/_osclib.py',
+         old="        if not isinstance(self._address, str)\\\n        or not self._address.startswith('/'):\n            raise OscMessageBuildError(\"OSC addresses must start with '/'\")\n", new=""),
     dict(rule='C06.codec', name='little-endian int', file='sc3/base/_osclib.py',
          old="        return struct.pack('>i', val)", new="        return struct.pack('<i', val)"),
     dict(rule='C06.codec', name='float read as double', file='sc3/base/_osclib.py',
